@@ -247,7 +247,7 @@ def refused_correspondence(ctx):
                           {"oracle": "refused", **c})
 
 
-def failed_then_run(kind, n, fail_noisy, noisy_after):
+def failed_then_run(kind, n, fail_noisy, noisy_after, pool=False):
     """through the PUBLIC entry point simulator.run, on ONE parameter object: a run whose engine raises midway (the trajectory routine
     raises NotImplementedError, as the real one does for a three-qubit gate), then a run that completes; returns (failed as expected,
     num_traj / shots between the two, trajectories executed by the second, value afterwards, rows or counts)"""
@@ -267,8 +267,9 @@ def failed_then_run(kind, n, fail_noisy, noisy_after):
         p, op = AnalogSimParams([Observable("z", 0)], elapsed_time=0.2, dt=0.1, num_traj=n, show_progress=False), MPO.ising(2, 1, 0.5)
     else:
         p, op = WeakSimParams(shots=n, show_progress=False), qc
-    saved = (S.digital_tjm, S.analog_tjm_1, S.analog_tjm_2)
+    saved = (S.digital_tjm, S.analog_tjm_1, S.analog_tjm_2, S.ProcessPoolExecutor, S.wait, S.available_cpus)
     st, calls = {"fail": True}, []
+    use_pool = bool(pool and fail_noisy and n > 1)  # the failure comes from the worker pool: every completion is a retryable error
 
     def stub(args, p=p):
         if st["fail"]:
@@ -282,7 +283,21 @@ def failed_then_run(kind, n, fail_noisy, noisy_after):
     try:
         failed = False
         try:
-            S.run(MPS(2), op, p, nm_on if fail_noisy else None, parallel=False)
+            if use_pool:
+                from concurrent.futures import CancelledError
+
+                from drivers.C13 import Sched
+
+                sched = Sched([(0, "Retry")] * 400)
+                S.ProcessPoolExecutor, S.wait, S.available_cpus = sched.executor, sched.wait, (lambda: 3)
+                try:
+                    S.run(MPS(2), op, p, nm_on, parallel=True)
+                except (TimeoutError, CancelledError, OSError):
+                    failed = True
+                finally:
+                    S.ProcessPoolExecutor, S.wait, S.available_cpus = saved[3:]
+            else:
+                S.run(MPS(2), op, p, nm_on if fail_noisy else None, parallel=False)
         except NotImplementedError:
             failed = True
         between = int(p.shots if kind == "weak" else p.num_traj)
@@ -292,18 +307,21 @@ def failed_then_run(kind, n, fail_noisy, noisy_after):
             return failed, between, len(calls), int(p.shots), int(sum(p.results.values()))
         return failed, between, len(calls), int(p.num_traj), int(p.observables[0].trajectories.shape[0])
     finally:
-        S.digital_tjm, S.analog_tjm_1, S.analog_tjm_2 = saved
+        S.digital_tjm, S.analog_tjm_1, S.analog_tjm_2, S.ProcessPoolExecutor, S.wait, S.available_cpus = saved
 
 
 def failed_correspondence(ctx):
     cases, exprs, impl = [], [], []
-    for k in range(ctx.scale(12, 96)):
+    for k in range(ctx.scale(24, 96)):
         kind = ("strong", "analog", "weak")[k % 3]
         n, fail_noisy, noisy_after = int(ctx.rng.integers(2, 9)), bool((k // 3) % 2), bool((k // 6) % 2)
+        pool = bool((k // 12) % 2)
         try:
-            impl.append(failed_then_run(kind, n, fail_noisy, noisy_after))
+            impl.append(failed_then_run(kind, n, fail_noisy, noisy_after, pool))
         except Exception as e:  # noqa: BLE001
             impl.append(f"EXC:{type(e).__name__}:{e}")
+        if pool and fail_noisy and n > 1:
+            ctx.count("failed_run_from_the_worker_pool")
         h = f"[(Fails, {g_bool(fail_noisy)})]"
         if kind == "weak":
             p0 = f"{{| shots := {g_nat(n)}; meas := repeat None {g_nat(n)} |}}"
@@ -311,7 +329,7 @@ def failed_correspondence(ctx):
         else:
             p0 = f"{{| num_traj := {g_nat(n)}; traj_rows := 0%nat |}}"
             exprs.append(f"let q := strong_tries {h} {p0} in let r := run_strong {g_bool(noisy_after)} q in (num_traj q, snd r, num_traj (fst r), traj_rows (fst r))")
-        cases.append({"class": kind, "n": n, "failed_run_noisy": fail_noisy, "noisy": noisy_after})
+        cases.append({"class": kind, "n": n, "failed_run_noisy": fail_noisy, "noisy": noisy_after, "pool": pool})
     vals = common.coq_eval_sharded(HEADER + "\nFrom Yaqs Require Import Model.Failures.", exprs, tag="c20f")
     for c, i, v in zip(cases, impl, vals):
         ctx.case(nontrivial_key=("failed", str(c)), validated=True)
@@ -835,7 +853,7 @@ def pool_search(ctx):
 def replay(ctx, data):
     rp = data.get("replay", data)
     if rp.get("oracle") == "failed-run":
-        i = failed_then_run(rp["class"], rp["n"], rp["failed_run_noisy"], rp["noisy"])
+        i = failed_then_run(rp["class"], rp["n"], rp["failed_run_noisy"], rp["noisy"], rp.get("pool", False))
         fresh = rp["n"] if rp["noisy"] else 1
         if not i[0] or i[2] != fresh or i[3] != rp["n"] or (rp["class"] == "weak" and i[4] != rp["n"]):
             return f"after the failed run the object holds {i[1]}; the next run executed {i[2]} (fresh: {fresh}), left {i[3]}, returned {i[4]}"
